@@ -39,6 +39,7 @@
 #include "suppressions.h"
 #include "timer.h"
 #include "utils.h"
+#include "verif_trace.h"
 
 #if defined(HAS_THREADING_MODEL_THREAD)
 #include "threadexecutor.h"
@@ -332,6 +333,7 @@ static std::vector<ErrorMessage> getUnmatchedSuppressions(const std::list<Suppre
         if (!s.fileName.empty()) {
             callStack.emplace_back(s.fileName, s.lineNumber == -1 ? 0 : s.lineNumber, s.column); // TODO: get rid of s.lineNumber == -1 hack
         }
+        VERIF_EVT("Unmatched", verif::kv("key", verif::supprKey(s)) + verif::kb("inl", s.isInline) + verif::kb("local", s.isLocal()) + verif::kb("checked", s.checked) + verif::kb("matched", s.matched) + verif::kv("file", s.fileName) + verif::kv("line", s.lineNumber));
         const std::string unmatchedSuppressionId = s.isPolyspace ? "unmatchedPolyspaceSuppression" : "unmatchedSuppression";
         errors.emplace_back(std::move(callStack), "", Severity::information, "Unmatched suppression: " + s.errorId, unmatchedSuppressionId, Certainty::normal);
     }
@@ -420,6 +422,28 @@ bool CppCheckExecutor::reportUnmatchedSuppressions(const Settings &settings, con
  * */
 int CppCheckExecutor::check_internal(const Settings& settings, Suppressions& supprs) const
 {
+#ifdef DANMAR_CPPCHECK_VERIF
+    {
+        std::string sev;
+        for (const Severity s : {Severity::warning, Severity::style, Severity::performance, Severity::portability, Severity::information})
+            if (settings.severity.isEnabled(s))
+                sev += severityToString(s) + ",";
+        const char* ex = settings.useSingleJob() ? "single" : (settings.executor == Settings::ExecutorType::Thread ? "thread" : "process");
+        VERIF_EVT("RunStart", verif::kv("jobs", settings.jobs) + verif::kv("executor", ex) + verif::kb("buildDir", !settings.buildDir.empty()) +
+                  verif::kv("exitCode", settings.exitCode) + verif::kv("sev", sev) + verif::kb("inconclusive", settings.certainty.isEnabled(Certainty::inconclusive)) +
+                  verif::kb("inlineSuppr", settings.inlineSuppressions) + verif::kb("emitDup", settings.emitDuplicates) + verif::kb("safety", settings.safety) +
+                  verif::kv("nfiles", static_cast<long>(mFiles.size() + mFileSettings.size())) +
+                  verif::kv("lists", verif::addr(&supprs.nomsg) + "," + verif::addr(&supprs.nofail)));
+        for (const auto& f : mFiles)
+            VERIF_EVT("RunFile", verif::kv("file", f.spath()));
+        for (const auto& f : mFileSettings)
+            VERIF_EVT("RunFile", verif::kv("file", f.file.spath()) + verif::kv("cfg", f.cfg));
+        for (const auto& s : supprs.nomsg.getSuppressions())
+            VERIF_EVT("SupprInit", verif::kv("list", verif::addr(&supprs.nomsg)) + verif::kv("key", verif::supprKey(s)) + verif::kb("inl", s.isInline) + verif::kb("local", s.isLocal()));
+        for (const auto& s : supprs.nofail.getSuppressions())
+            VERIF_EVT("SupprInit", verif::kv("list", verif::addr(&supprs.nofail)) + verif::kv("key", verif::supprKey(s)) + verif::kb("inl", s.isInline) + verif::kb("local", s.isLocal()));
+    }
+#endif
     StdLogger stdLogger(settings);
     std::unique_ptr<TimerResults> timerResults;
     if (settings.showtime != Settings::ShowTime::NONE)
@@ -437,6 +461,7 @@ int CppCheckExecutor::check_internal(const Settings& settings, Suppressions& sup
         for (auto i = mFiles.cbegin(); i != mFiles.cend(); ++i)
             fileNames.emplace_back(i->path());
         AnalyzerInformation::writeFilesTxt(settings.buildDir, fileNames, mFileSettings);
+        VERIF_EVT("FilesTxt", verif::kv("n", static_cast<long>(fileNames.size() + mFileSettings.size())));
 
         stdLogger.readActiveCheckers();
     }
@@ -474,15 +499,18 @@ int CppCheckExecutor::check_internal(const Settings& settings, Suppressions& sup
             timerResults->showResults(5);
     }
 
+    VERIF_EVT("ExecDone", verif::kv("result", returnValue));
     // TODO: is this run again instead of using previously cached results?
     returnValue |= cppcheck.analyseWholeProgram(settings.buildDir, mFiles, mFileSettings, stdLogger.getCtuInfo());
 
     if ((settings.severity.isEnabled(Severity::information) || settings.checkConfiguration) && !supprs.nomsg.getSuppressions().empty()) {
         const bool err = reportUnmatchedSuppressions(settings, supprs.nomsg, mFiles, mFileSettings, stdLogger);
+        VERIF_EVT("UnmatchedDone", verif::kb("err", err));
         if (err && returnValue == 0)
             returnValue = settings.exitCode;
     }
 
+    VERIF_EVT("PreReport", verif::kv("result", returnValue));
     stdLogger.writeCheckersReport(supprs);
 
     if (settings.outputFormat == Settings::OutputFormat::xml) {
@@ -491,6 +519,9 @@ int CppCheckExecutor::check_internal(const Settings& settings, Suppressions& sup
         stdLogger.reportErr(ErrorMessage::getXMLFooter(settings.xml_version));
     }
 
+#ifdef DANMAR_CPPCHECK_VERIF
+    VERIF_EVT("Exit", verif::kv("code", (settings.safety && stdLogger.hasCriticalErrors()) ? EXIT_FAILURE : (returnValue ? settings.exitCode : EXIT_SUCCESS)) + verif::kv("result", returnValue));
+#endif
     if (settings.safety && stdLogger.hasCriticalErrors())
         return EXIT_FAILURE;
 
@@ -664,6 +695,9 @@ void StdLogger::reportErr(const ErrorMessage &msg)
     const std::string msgStr =
         msgCopy.toString(mSettings.verbose, mSettings.templateFormat, mSettings.templateLocation);
 
+#ifdef DANMAR_CPPCHECK_VERIF
+    VERIF_EVT("Emit", verif::msgKey(msg) + verif::kv("fk", std::hash<std::string>{}(msgStr)) + verif::kb("dup", !mSettings.emitDuplicates && mShownErrors.count(msgStr) != 0));
+#endif
     // Alert only about unique errors
     if (!mSettings.emitDuplicates && !mShownErrors.insert(msgStr).second)
         return;
